@@ -467,28 +467,30 @@ def main():
             nA = len(M.ARG_ALPHABET)
             core = ARG_CORE_T if T else ARG_CORE_Q
             # 1. the small families first, in one stream: texts of <= 2 tokens, argument lists of
-            #    <= 1, and the argument lists that need a real process
+            #    <= 1
             small = text_round(0) + text_round(1)
             small += [("arg", (), "after")] + [("arg", (i,), order) for i in range(nA)
                                                for order in ("after", "before")]
+            procs = []      # the argument lists that need a real process (slow: run later)
             for order in ("after", "before"):
                 for w in M.ARG_EMPTY + M.ARG_EXIT:
-                    small.append(("argsub", tuple(w), order))
+                    procs.append(("argsub", tuple(w), order))
                     if T:
                         for other in M.ARG_ALPHABET[:core]:
-                            small.append(("argsub", tuple(w) + tuple(other), order))
-                            small.append(("argsub", tuple(other) + tuple(w), order))
-            run("txt<=1,args<=1,args:process", small)
+                            procs.append(("argsub", tuple(w) + tuple(other), order))
+                            procs.append(("argsub", tuple(other) + tuple(w), order))
+            run("txt<=1,args<=1", small)
             run("txt=2", text_round(2))
             # 2. binary seeds: single-field mutations and truncations
             for name in seeds:
                 run("bin:%s:single+trunc" % name,
                     [("bin", name, "single", i, ()) for i in range(len(muts[name, "single"]))] +
                     [("bin", name, "trunc", i, ()) for i in range(len(muts[name, "trunc"]))])
-            # 3. texts of 3 tokens, argument pairs
+            # 3. texts of 3 tokens, argument pairs, argument lists as real processes
             run("txt=3,args=2", text_round(3) +
                 [("arg", (i, j), order) for order in ("after", "before")
                  for i in range(nA if T else core) for j in range(nA if T else core)])
+            run("args:process", procs)
             if T:
                 for name in seeds:
                     run("bin:%s:pairs" % name,
@@ -630,7 +632,7 @@ def main():
                 if contains_sub(tuple(item[2]), set(book.bad_text.get((item[1], item[3]), {}))):
                     folded[key] = "contains a shorter failing text"
                     continue
-                prefix = key.rsplit(":", 1)[0]
+                prefix = key[:-len(tok_label(item[1], item[2])) - 1]
                 per_prefix[prefix] = per_prefix.get(prefix, 0) + 1
                 if per_prefix[prefix] > TEXT_KEY_CAP:
                     over_cap[prefix] = over_cap.get(prefix, 0) + 1
@@ -667,8 +669,9 @@ def main():
                 "kind) of every structural field of each binary seed; every truncation length; "
                 "every pair over the shortlist (thorough); every token string up to the stated "
                 "length per grammar; every argument list up to the stated length",
-        "exhaustive": not capped,
-        "capped": capped,
+        "exhaustive": not capped and not over_cap,
+        "capped": capped + ["%s: %d more text classes than the confirmation cap of %d, not judged"
+                            % (k, v, TEXT_KEY_CAP) for k, v in over_cap.items()],
         "outcome_classes": by_class,
         "per_seed_or_grammar": fam_tot,
         "per_family": per,
